@@ -62,10 +62,18 @@ def run_session(kind, auto, schedule, hb_plan=(), seed=0, connect_plan=(), disc_
                         tr.lose(ConnectionResetError("reset by peer"))
                 elif e == "user_disc" and not st["user"]:
                     st["task"] = asyncio.ensure_future(user_disc())
+                elif e == "send" and not st["user"]:                 # a telegram handed to the tunnel at this instant (it may have to wait for the tunnel)
+                    st.setdefault("sends", []).append(asyncio.ensure_future(send1()))
 
         loop.iter_hook = hook
         for when, e in timed:
             loop.call_at(when, fire, [e])
+
+        async def send1():
+            try:
+                await sim.tun.send_cemi(cemi(9))
+            except (CommunicationError, asyncio.CancelledError):
+                pass
 
         async def send2():
             for i in range(2):
@@ -157,6 +165,10 @@ def run(ck):
                         if lost_t:
                             for d in (0.1, 0.4, 0.9, 1.1, 1.6, 2.1, 2.6, 3.4) if ck.tier == "quick" else [x / 10 for x in range(1, 60, 2)]:
                                 plans.append((kind, auto, [(("t", lost_t[0] / 1000 + d), "user_disc")], ("none",) * 4, extra))
+                            # ... with a telegram handed over while the tunnel is down (it waits for the reconnect), then the user disconnects
+                            for d1, d2 in ((0.05, 0.5), (0.05, 1.5), (0.05, 2.5), (0.6, 1.2), (1.2, 1.3), (0.05, 3.5)) if ck.tier == "quick" else \
+                                    [(a / 10, b / 10) for a in range(0, 30, 4) for b in range(a + 1, 45, 4)]:
+                                plans.append((kind, auto, [(("t", lost_t[0] / 1000 + d1), "send"), (("t", lost_t[0] / 1000 + d2), "user_disc")], ("none",) * 4, extra))
             for hb in (["none"] * 4, ["fail"] * 4, ["ok", "none", "none", "none", "none"]):
                 plans.append((kind, auto, [], tuple(hb)))
                 plans.append((kind, auto, [(c0 + rnd.randrange(5, 40), "user_disc")], tuple(hb)))
